@@ -420,6 +420,88 @@ def probe_conflict_cases(rng, n_random):
     return cs
 
 
+# ---- labels whose lower-casing grows (4c6b25c) ----
+GROW = ["\u0130", "\u023a", "\u023e"]     # 2 bytes each; to_lowercase gives 3 bytes
+
+
+def grow_label(rng, lowered_len, prefix=""):
+    """a label of <= 63 bytes whose Rust-lower-cased form has `lowered_len` bytes"""
+    body = lowered_len - len(prefix.lower().encode())
+    n = min(body // 3, 30)
+    m = body - 3 * n
+    while 2 * n + m + len(prefix.encode()) > 63 and n < 30:
+        n += 1
+        m = body - 3 * n
+    if m < 0:
+        n, m = body // 3, body % 3
+    chars = [rng.choice(GROW) for _ in range(n)] + ["x"] * m
+    if rng.random() < 0.5:
+        rng.shuffle(chars)
+    return prefix + "".join(chars)
+
+
+def lowercase_growth_history(hid, rng, lowered_len, kind):
+    """names with a label that grows when lower-cased (the daemon's map keys are lower-cased and
+    some queries go out under the key), answers with SHORT TTLs so that the 80 % refresh and
+    the retransmissions happen inside the history; the daemon must survive"""
+    lab = grow_label(rng, lowered_len)
+    calls, dgs = [], []
+    ttl = rng.choice([2, 3, 5])
+    if kind == "resolve":
+        host = lab + ".local."
+        calls.append({"op": "resolve_hostname", "host": host, "ch": "g0", "timeout": rng.choice([None, 20000])})
+        p = Packet()
+        p.rr(1, labs(lab, "local"), 1, 0x8001, ttl, rd_bytes(bytes([192, 168, 1, 77])))
+        if rng.random() < 0.5:
+            p.rr(1, labs(lab, "local"), 28, 0x8001, ttl, rd_bytes(bytes.fromhex("fe80" + "00" * 13 + "77")))
+        dgs.append(dg(p.finish(flags=0x8400)))
+    elif kind in ("browse", "verify"):
+        tlab = grow_label(rng, lowered_len, "_")
+        ty = tlab + "._tcp.local."
+        tyl = labs(tlab, "_tcp", "local")
+        inst = labs("remote") + tyl
+        calls.append({"op": "browse", "ty": ty, "ch": "g0"})
+        if kind == "verify":
+            calls.append({"op": "verify", "name": "remote." + ty, "timeout": 1000})
+        p = Packet()
+        p.rr(1, tyl, 12, 1, ttl, rd_ptr(inst))
+        p.rr(1, inst, 33, 0x8001, ttl, rd_srv(0, 0, 80, labs(lab, "local")))
+        p.rr(1, inst, 16, 0x8001, ttl, rd_bytes(b"\x00"))
+        p.rr(1, labs(lab, "local"), 1, 0x8001, ttl, rd_bytes(bytes([192, 168, 1, 78])))
+        dgs.append(dg(p.finish(flags=0x8400)))
+    elif kind == "register":
+        calls.append({"op": "register", "svc": {"ty": "_x._tcp.local.", "name": lab, "host": GOOD_HOST, "ips": "192.168.1.10", "port": 80}})
+        calls.append({"op": "register", "svc": {"ty": "_x._tcp.local.", "name": "plain", "host": lab + ".local.", "ips": "192.168.1.10", "port": 81}})
+        calls.append({"op": "unregister", "name": lab + "._x._tcp.local.", "ch": "g1"})
+        p = Packet()
+        p.question(labs(lab, "_x", "_tcp", "local"), 255, 1)
+        p.question(labs(lab, "local"), 255, 1)
+        dgs.append(dg(p.finish(flags=0)))
+    else:  # subtype
+        sub = grow_label(rng, lowered_len, "_")
+        calls.append({"op": "register", "svc": {"ty": sub + "._sub._x._tcp.local.", "name": "subbed", "host": GOOD_HOST, "ips": "192.168.1.10", "port": 82}})
+        calls.append({"op": "browse", "ty": sub + "._sub._x._tcp.local.", "ch": "g0"})
+        p = Packet()
+        p.rr(1, labs(sub, "_sub", "_x", "_tcp", "local"), 12, 1, ttl, rd_ptr(labs("remote", "_x", "_tcp", "local")))
+        dgs.append(dg(p.finish(flags=0x8400)))
+    steps = [{"dt": 0, "calls": calls}, {"dt": 100, "dgrams": dgs}]
+    if rng.random() < 0.5:
+        steps.append({"dt": 1200, "dgrams": dgs})
+    return history(hid, steps, settle_ms=9000)
+
+
+def lowercase_growth_cases(rng, n_random):
+    cs = []
+    for kind in ("resolve", "browse", "verify", "register", "subtype"):
+        for ll in (62, 63, 64, 90):
+            for rep in range(2):
+                cs.append(Case(lowercase_growth_history("lg-%s-%d-%d" % (kind, ll, rep), rng, ll, kind), "lowercase-growth"))
+    for i in range(n_random):
+        cs.append(Case(lowercase_growth_history("lg-rand-%d" % i, rng, rng.choice([30, 60, 61, 62, 63, 64, 65, 66, 75, 89, 90]),
+                                                rng.choice(["resolve", "resolve", "browse", "verify", "register", "subtype"])), "lowercase-growth"))
+    return cs
+
+
 def fixed_histories():
     hs = []
     for n in (59, 60, 61, 62, 63):
@@ -475,6 +557,7 @@ def generate(rng, tier):
         cases.append(Case("v_new %s %s %s" % (hx(ty), hx(nm), hx(host)), "service-info-new"))
     cases += fixed_histories()
     cases += probe_conflict_cases(rng, 60 if quick else 1500)
+    cases += lowercase_growth_cases(rng, 40 if quick else 1000)
     n_api = 120 if quick else 2500
     n_pkt = 220 if quick else 5000
     for i in range(n_api):
@@ -539,7 +622,15 @@ def model_input(line, raw):
         return line
     h = json.loads(line[5:])
     toks = [_tok(c) for c in _calls_of(h)]
-    return "c15h " + ",".join(toks) if toks else "c15h"
+    if not toks:
+        return "c15h"
+    # oracle: the lower-cased spellings computed by Rust's str::to_lowercase (harness, `simh`)
+    try:
+        low = json.loads(raw).get("lower", {})
+    except ValueError:
+        low = {}
+    orc = ";".join("%s=%s" % (k, v) for k, v in sorted(low.items()) if k != v)
+    return "c15h " + ",".join(toks) + (" lc:" + orc if orc else "")
 
 
 def nontrivial(line, result):
@@ -597,7 +688,19 @@ def known_class(line, impl, mon):
 
 def shrink(line, still_bad):
     if line.startswith("simh "):
-        return "simh " + vlib.shrink_history(line[5:], lambda j: still_bad("simh " + j))
+        # the settle run and the final status + fresh browse stay (without them "still serves"
+        # is trivially false); only the steps in front of them are shrunk
+        h = json.loads(line[5:])
+        tail = h["steps"][-2:]
+
+        def full(j):
+            hh = json.loads(j)
+            hh["steps"] = hh["steps"] + tail
+            return "simh " + json.dumps(hh, separators=(",", ":"), ensure_ascii=False)
+        head = dict(h)
+        head["steps"] = h["steps"][:-2]
+        small = vlib.shrink_history(json.dumps(head, separators=(",", ":"), ensure_ascii=False), lambda j: still_bad(full(j)))
+        return full(small)
     return vlib.shrink(ID, line, None, still_bad)
 
 
